@@ -703,6 +703,11 @@ class Report:
                         "tier": self.tier,
                         "violation": v,
                         "all_violations": len(self.violations),
+                        "broken_obligations": [
+                            w["detail"].get("broken") or w["case"]
+                            for w in self.violations
+                            if w["kind"] in ("build-failed", "obligation-broken")
+                        ],
                         "others": self.violations[1:6],
                     },
                     f,
@@ -754,25 +759,55 @@ def _match_finding(f, ctx):
     return bool(sig)
 
 
+def locate_coq_errors(log):
+    """Every `File "...", line N ... Error:` of a coqc / make log as
+    {"file", "line", "statement" (the enclosing Lemma/Theorem/Definition), "error"} so that a
+    broken obligation names the lemma -- for Proofs/GenAgree*.v that is the (class, method)."""
+    out = []
+    for m in re.finditer(r'File "([^"]+)", line (\d+), characters [^\n]*\n(Error[^\n]*(?:\n(?!File |make|COQ)[^\n]*){0,8})', log):
+        rel, line, msg = m.group(1), int(m.group(2)), m.group(3).strip()
+        rel = rel[2:] if rel.startswith("./") else rel
+        name = None
+        try:
+            lines = open(os.path.join(COQ, rel)).read().split("\n")
+            for k in range(min(line, len(lines)) - 1, -1, -1):
+                mm = re.match(r"\s*(?:Lemma|Theorem|Corollary|Example|Definition|Fixpoint|Ltac)\s+([A-Za-z0-9_']+)", lines[k])
+                if mm:
+                    name = mm.group(1)
+                    break
+        except OSError:
+            pass
+        out.append({"file": rel, "line": line, "statement": name, "error": msg[:600]})
+    return out
+
+
 def obligations_gate(report, prop_id):
     """Build + compile the property's obligations.  A failure is recorded as a violation
     without failing input (the caller still runs the search for one)."""
     ok, log, treport = ensure_built(only=["Props/%s.vo" % prop_id])
     report.cov["translator"] = treport
     if not ok:
+        broken = locate_coq_errors(log)
+        for b in broken:
+            print("NOTE obligation-broken %s:%s %s" % (b["file"], b["line"], b["statement"]))
+        what = ", ".join("%s (%s:%s)" % (b["statement"], b["file"], b["line"]) for b in broken)
         report.violation(
             "build-failed",
-            {"theorem_or_file": "coq make"},
-            {"log": log[-3000:]},
+            {"theorem_or_file": what or "coq make", "broken": broken},
+            {"log": log[-3000:], "broken": broken},
             failing_input=False,
         )
         return {"ok": False, "obligations": 0, "discharged": 0, "log": log[-2000:]}
     ob = check_obligations(prop_id)
     if not ob["ok"]:
+        broken = locate_coq_errors(ob["log"])
+        for b in broken:
+            print("NOTE obligation-broken %s:%s %s" % (b["file"], b["line"], b["statement"]))
         report.violation(
             "obligation-broken",
-            {"theorem_or_file": "Props/%s.v" % prop_id},
+            {"theorem_or_file": "Props/%s.v" % prop_id, "broken": broken},
             {
+                "broken": broken,
                 "log": ob["log"][-3000:],
                 "forbidden": ob["forbidden"],
                 "bad_axioms": ob.get("bad_axioms"),
@@ -782,6 +817,28 @@ def obligations_gate(report, prop_id):
         )
     return ob
 
+
+OBLIGATION_KINDS = ("build-failed", "obligation-broken")
+
+
+def replay_obligations(prop_id, stored):
+    """--replay of a stored violation WITHOUT failing input (a broken obligation, e.g. a GenAgree
+    lemma that no longer follows from the source): rebuild and say whether it still is broken."""
+    rep = Report(prop_id, "quick", stored.get("seed", 0))
+    rep.findings = []
+    obligations_gate(rep, prop_id)
+    for v in rep.violations:
+        print("REPLAY still fails: %s %s" % (v["kind"], v["case"].get("theorem_or_file")))
+    if not rep.violations:
+        print("REPLAY: no longer fails")
+    return 1 if rep.violations else 0
+
+
+TRUSTED_BASE_TRANSLATOR = (
+    "the ast translator harness/translate/translate.py (whitelist, fail-closed; re-run on every check) "
+    "and Base/Tensor.v's reading of numpy basic indexing / axis sums / right-aligned broadcasting "
+    "(teval): together they are what ties Gen/*.v + Proofs/GenAgree*.v to the source text"
+)
 
 TRUSTED_BASE_COMMON = [
     "Coq 8.16.1 kernel (coqc), vm_compute for running the model and closing concrete examples; no native_compute",
